@@ -6,7 +6,7 @@ From PV Require Import Base.Prelude Base.PySlice Spec.LuaTokens Spec.LuaGrammar 
 From Coq Require Import ZifyBool.
 Ltac Zify.zify_post_hook ::= Z.to_euclidean_division_equations.
 
-Lemma den_tag_of ts t : forall tag a b sh fs, den ts (Node tag a b sh fs) t = true -> (tag =? tChain) = false -> tag_of t = tag.
+Lemma den_tag_of ts nts t : forall tag a b sh fs, den ts nts (Node tag a b sh fs) t = true -> (tag =? tChain) = false -> tag_of t = tag.
 Proof.
   intros tag a b sh fs H. apply den_old in H. revert tag a b sh fs H.                                          (* VD *)
   induction t as [tag0 s0 e0 sh0 fs0 _| | l _| | | | |i j x IH|x _] using tree_ind'; intros tag ga gb gsh gfs H Hc;
@@ -28,24 +28,25 @@ Ltac ssubst := repeat match goal with Q : sstream _ _ = ?s |- _ => is_var s; sub
 
 Ltac open_lst :=
   match goal with
-  | HC : ValidDomain1.CTX ?ts (Lst ?l) ?mx |- _ => apply CTX_lst in HC; ctx_split HC
+  | HC : ValidDomain1.CTX ?ts _ (Lst ?l) ?mx |- _ => apply CTX_lst in HC; ctx_split HC
   end.
 
 Section Step4.
 Variable ts : list token.
+Variable nts : bool.
 Local Notation SS := (sstream ts).
 Local Notation lim := (lim ts).
 Local Notation len := (zlen ts).
-Local Notation CTX := (CTX ts).
-Local Notation CTXL := (CTXL ts).
-Local Notation den := (den ts).
-Local Notation all2v := (all2v ts).
-Local Notation dom := (dom ts).
+Local Notation CTX := (CTX ts nts).
+Local Notation CTXL := (CTXL ts nts).
+Local Notation den := (den ts nts).
+Local Notation all2v := (all2v ts nts).
+Local Notation dom := (dom ts nts).
 Variable R : funs.
 Variable k : Z.
 Local Notation G := (G ts k).
 Local Notation G' := (G' ts k).
-Hypothesis HR : comp ts G R.
+Hypothesis HR : comp ts nts G R.
 
 Ltac gd := unfold ValidDomain3.G, ValidDomain3.G' in *; lia.
 
@@ -63,12 +64,12 @@ Proof.
     { destruct (tag =? tVarName) eqn:E1; [apply Z.eqb_eq in E1; subst; reflexivity|].
       destruct (tag =? tVarIndex) eqn:E2; [apply Z.eqb_eq in E2; subst; reflexivity|].
       destruct (tag =? tVarAttribute) eqn:E3; [apply Z.eqb_eq in E3; subst; reflexivity | discriminate Et]. }
-    rewrite (den_tag_of ts _ _ _ _ _ _ Q3 Hc). rewrite <- orb_assoc in Et. rewrite <- Et.
+    rewrite (den_tag_of ts _ _ _ _ _ _ _ Q3 Hc). rewrite <- orb_assoc in Et. rewrite <- Et.
     destruct (tag =? tVarName), (tag =? tVarIndex), (tag =? tVarAttribute); reflexivity. }
   rewrite Hv. rewrite ret_eq. apply RT_ok; [lia|]. repeat split; assumption.
 Qed.
 
-Lemma L_varlist_loop : varlist_loop_ok ts G' (varlist_loop_def ts R).
+Lemma L_varlist_loop : varlist_loop_ok ts nts G' (varlist_loop_def ts R).
 Proof.
   intros p mx n l s' HG Hg HC Hf. destruct HG as [Hp0 HGk]. unfold varlist_loop_def.
   destruct l as [|c [|x r]]; cbn [sep_tail] in Hg; [|discriminate|].
@@ -80,7 +81,7 @@ Proof.
       apply obind_some in Hg. destruct Hg as (? & Hg & _). pose proof (hd_sym _ _ _ _ Hg) as Hh. fhd Hh. }
     eapply RT_bind; [eapply L_var; [gd | exact E2 | exact HC2 | exact Hfx]|].
     cbv beta. intros v p1 Hl_p1 (Q1 & Q2 & Q3 & Q4 & Q5). subst s0. prim; rewrite bind_assert by exact Q4.
-    eapply RT_bind; [eapply (c_varlist_loop _ _ _ HR); [gd | exact Hg | exact HC | exact Hf]|].
+    eapply RT_bind; [eapply (c_varlist_loop _ _ _ _ HR); [gd | exact Hg | exact HC | exact Hf]|].
     cbv beta. intros tl p' Hl_px (Q6 & Q7 & Q8). rewrite ret_eq. apply RT_ok; [lia|]. split; [exact Q6|]. split; [lia|].
     all2v_tac. exact Q8.
 Qed.
@@ -150,7 +151,7 @@ Proof.
   - apply obind_some in H. destruct H as (? & H & _). pose proof (hd_kw _ _ _ _ H) as Hh. fhd Hh.
 Qed.
 
-Lemma L_elseif_loop : elseif_loop_ok ts G' (elseif_loop_def ts R).
+Lemma L_elseif_loop : elseif_loop_ok ts nts G' (elseif_loop_def ts R).
 Proof.
   intros p mx n l s' HG Hg HC Hf. destruct HG as [Hp0 HGk]. unfold elseif_loop_def.
   destruct n; [discriminate|]. pose proof Hg as Hg0. apply elseifs_inv in Hg.
@@ -165,9 +166,9 @@ Proof.
     tinv E1. hit. pose proof (hd_kw _ _ _ _ E3) as Hh.
     eapply RT_bind; [eapply R_exp; [exact HR | gd | exact E2 | eassumption | fhd Hh]|].
     cbv beta. intros e1 p1 Hl_p1 (Q1 & Q2 & Q3 & Q4 & Q5). subst s0. tinv E3. hit.
-    eapply RT_bind; [eapply (c_chunk _ _ _ HR); [gd | exact E4 | eassumption | eapply elseifs_head; eassumption]|].
+    eapply RT_bind; [eapply (c_chunk _ _ _ _ HR); [gd | exact E4 | eassumption | eapply elseifs_head; eassumption]|].
     cbv beta. intros b1 p2 Hl_p2 (Q6 & Q7 & Q8 & fs & ->). subst s2. prim; rewrite bind_assert by reflexivity.
-    eapply RT_bind; [eapply (c_elseif_loop _ _ _ HR); [gd | exact Hg | exact HC | exact Hf]|].
+    eapply RT_bind; [eapply (c_elseif_loop _ _ _ _ HR); [gd | exact Hg | exact HC | exact Hf]|].
     cbv beta. intros tl p' Hl_px (Q9 & l1 & l2 & n' & -> & (Q10 & Q10p) & Q11 & Q12). rewrite ret_eq. apply RT_ok; [lia|]. split; [lia|].
     exists (Kw i :: Lst [c; Kw i0; b] :: l1), l2, n'. split; [reflexivity|]. split; [|split; assumption].
     destruct (isnode_facts _ _ Q4) as (Qh & Qn & _). split; [all2v_tac; exact Q10|].                              (* VD *)
@@ -192,7 +193,7 @@ Proof.
   eapply RT_bind; [eapply R_exp; [exact HR | split; assumption | exact E1 | eassumption | fhd Hh]|].
   cbv beta. intros e1 p1 Hl_p1 (Q1 & Q2 & Q3 & Q4 & Q5). subst s. prim. tinv E2. hit. prim. miss. prim. hit. prim.
   pose proof (hd_kw _ _ _ _ Hg) as Hhe. assert (Hfe : follow (anyof [pkw "end"%bs]) mx s2) by (fhd Hhe).
-  eapply RT_bind; [eapply (c_chunk _ _ _ HR); [gd | exact E3 | eassumption | eapply elseifs_head; eassumption]|].
+  eapply RT_bind; [eapply (c_chunk _ _ _ _ HR); [gd | exact E3 | eassumption | eapply elseifs_head; eassumption]|].
   cbv beta. intros b1 p2 Hl_p2 (Q6 & Q7 & Q8 & fs & ->). subst s1. prim; rewrite bind_assert by reflexivity.
   eapply RT_bind; [eapply L_elseif_loop; [gd | exact E4 | exact HCr | exact Hfe]|].
   cbv beta. intros tl p3 Hl_p3 (Q9 & l1 & l2 & n' & -> & (Q10 & Q10p) & Q11 & Q12).
@@ -203,19 +204,19 @@ Proof.
     miss. prim. tinv Hg. hit. rewrite mk_eq. apply RT_ok; [lia|]. unfold QS.
     split; [reflexivity|]. split; [lia|]. split; [|split; reflexivity].
     rewrite den_node; [| reflexivity | apply loc_if_long; [exact Qn | rewrite forallb_app', Q10p; reflexivity | exact Hthen]].   (* VD *)
-    all2v_tac. rewrite all2v_cons; [exact (all2v_nil ts) | | reflexivity].
+    all2v_tac. rewrite all2v_cons; [exact (all2v_nil ts nts) | | reflexivity].
     rewrite den_lst. rewrite all2v_cons; [| rewrite den_lst; all2v_go | reflexivity].
-    rewrite all2v_app by exact Q10. exact (all2v_nil ts).
+    rewrite all2v_app by exact Q10. exact (all2v_nil ts nts).
   - destruct n'; [discriminate|]. apply elseifs_inv in Q11.
     destruct Q11 as [[Hx _]|[(el' & b2' & Hx & Q11)|(? & ? & ? & ? & ? & Hx & _)]]; try discriminate Hx.
     injection Hx as <- <-. osplit Q11 E5. ctx_split HCl2. open_lst.
     tinv E5. hit.
-    eapply RT_bind; [eapply (c_chunk _ _ _ HR); [gd | exact Q11 | eassumption | fw]|].
+    eapply RT_bind; [eapply (c_chunk _ _ _ _ HR); [gd | exact Q11 | eassumption | fw]|].
     cbv beta. intros eb p4 Hl_p4 (Q13 & Q14 & Q15 & fs2 & ->). subst s2. prim. prim; rewrite bind_assert by reflexivity. prim.
     tinv Hg. hit. rewrite mk_eq. apply RT_ok; [lia|]. unfold QS.
     split; [reflexivity|]. split; [lia|]. split; [|split; reflexivity].
     rewrite den_node; [| reflexivity | apply loc_if_long; [exact Qn | rewrite forallb_app', Q10p; reflexivity | exact Hthen]].   (* VD *)
-    all2v_tac. rewrite all2v_cons; [exact (all2v_nil ts) | | reflexivity].
+    all2v_tac. rewrite all2v_cons; [exact (all2v_nil ts nts) | | reflexivity].
     rewrite den_lst. rewrite all2v_cons; [| rewrite den_lst; all2v_go | reflexivity].
     rewrite all2v_app by exact Q10. all2v_tac.
 Qed.
@@ -244,7 +245,7 @@ Lemma for_tail pos p1 mx n d bk e s' (pre : list tree) tag :
 Proof.
   intros HG Hg HC1 HC2 HC3. destruct HG as [Hp0 HGk]. osplit Hg E1. osplit Hg E2. tinv E1. hit.
   pose proof (hd_kw _ _ _ _ Hg) as Hh.
-  eapply RT_bind; [eapply (c_chunk _ _ _ HR); [gd | exact E2 | eassumption | fhd Hh]|].
+  eapply RT_bind; [eapply (c_chunk _ _ _ _ HR); [gd | exact E2 | eassumption | fhd Hh]|].
   cbv beta. intros b1 p2 Hl_p2 (Q1 & Q2 & Q3 & fs & ->). subst s0. prim; rewrite bind_assert by reflexivity.
   tinv Hg. hit. rewrite mk_eq. apply RT_ok; [lia|]. split; [reflexivity|]. split; [lia|].
   eexists _, _, _. split; [reflexivity|]. split; [exact Q3|]. repeat split.
@@ -320,9 +321,9 @@ Proof.
     apply obind_some in Er. destruct Er as (? & Er & _). pose proof (hd_sym _ _ _ _ Er) as Hh. fhd Hh. }
   assert (Hx : exists i t0 t, x = Tok i t0 /\ SS p = (i, t) :: s2 /\ kmatch (kd t) (PClass CName) = true /\ fence_ok mx i = true).
   { apply tokc_inv in Ex. destruct Ex as (i & t0 & t & -> & Hs & Hk). exists i, t0, t. repeat split; try assumption.
-    match goal with HCn : ValidDomain1.CTX ts (Node tNameList _ _ _ _) mx |- _ =>
+    match goal with HCn : ValidDomain1.CTX ts _ (Node tNameList _ _ _ _) mx |- _ =>
       pose proof HCn as HCn'; apply CTX_node in HCn'; ctx_split HCn' end. open_lst.
-    match goal with HCt : ValidDomain1.CTX ts (Tok i t0) mx |- _ => exact (CTX_tok ts _ _ _ HCt) end. }
+    match goal with HCt : ValidDomain1.CTX ts _ (Tok i t0) mx |- _ => exact (CTX_tok ts _ _ _ _ HCt) end. }
   destruct Hx as (i & t0 & t & -> & Hs & Hk & Hlim). destruct (spos ts p i t s2 Hp0 Hs) as (Hle & Hlt & Hn). ssubst.
   hit. miss.
   eapply RT_bind; [eapply L_namelist; [exact HR | split; assumption | exact E1 | eassumption | eapply nl_stop_hd; [|exact Hh2]; reflexivity]|].
@@ -414,7 +415,7 @@ Proof.
     eapply RT_bind; [eapply L_varlist; [split; assumption | exact E1 | eassumption | apply follow_head; exact Hu]|].
     cbv beta. intros vl p1 Hl_p1 (Q1 & Q2 & tl & -> & Q3). cbn [is_none strip_paren]. prim.
     destruct (spos ts p1 oi ot _ ltac:(lia) Q1) as (Hle & Hlt & Hn). ssubst.
-    match goal with HCt : ValidDomain1.CTX ts (Tok oi ot0) mx |- _ => pose proof (CTX_tok ts _ _ _ HCt) as Hlim end.
+    match goal with HCt : ValidDomain1.CTX ts _ (Tok oi ot0) mx |- _ => pose proof (CTX_tok ts _ _ _ _ HCt) as Hlim end.
     rewrite (bind_accept_first_hit ts assign_ops _ p1 mx oi ot _ assign_ops_nt ltac:(lia) Q1 Hlim
                ltac:(eapply anyof_sub; [|exact Hu]; vm_compute; reflexivity)). cbv beta iota zeta. prim.
     eapply RT_bind; [eapply L_explist; [exact HR | gd | exact Hg | eassumption | fw]|].
@@ -422,7 +423,7 @@ Proof.
     rewrite ret_eq. apply RT_ok; [lia|]. unfold QS. split; [exact Q6|]. split; [lia|]. split; [|split; reflexivity]. den_side. }
   gtag Hg tStatFunctionCall.
   { gmatch Hg. destruct (is_tag t tFunctionCall || is_tag t tFunctionCallMethod) eqn:Ec; [|discriminate]. open_node.
-    destruct (L_prefixexp ts R k HR p mx n t s' (conj Hp0 HGk) Hg ltac:(eassumption) ltac:(fw)) as (fc & p1 & E & Hl_p1 & Q1 & Q2 & Q3 & Q4 & Q5 & _).
+    destruct (L_prefixexp ts nts R k HR p mx n t s' (conj Hp0 HGk) Hg ltac:(eassumption) ltac:(fw)) as (fc & p1 & E & Hl_p1 & Q1 & Q2 & Q3 & Q4 & Q5 & _).
     assert (Htag : tag_of fc = tFunctionCall \/ tag_of fc = tFunctionCallMethod).
     { destruct t as [tg ta tb tsh tfs| | | | | | | |]; try discriminate Ec. unfold is_tag in Ec.
       destruct (tg =? tFunctionCall) eqn:E1.
@@ -436,7 +437,7 @@ Proof.
     rewrite mk_eq. apply RT_ok; [lia|]. unfold QS. split; [exact Q1|]. split; [lia|]. split; [|split; reflexivity]. den_side. }
   gtag Hg tStatDo.
   { gmatch Hg. open_node. osplit Hg E1. osplit Hg E2. tinv E1. stat_start Hp0. hit. pose proof (hd_kw _ _ _ _ Hg) as Hh.
-    eapply RT_bind; [eapply (c_chunk _ _ _ HR); [gd | exact E2 | eassumption | fhd Hh]|].
+    eapply RT_bind; [eapply (c_chunk _ _ _ _ HR); [gd | exact E2 | eassumption | fhd Hh]|].
     cbv beta. intros b1 p2 Hl_p2 (Q1 & Q2 & Q3 & fs & ->). ssubst. prim; rewrite bind_assert by reflexivity. tinv Hg. hit.
     rewrite mk_eq. apply RT_ok; [lia|]. unfold QS. split; [reflexivity|]. split; [lia|]. split; [|split; reflexivity]. den_side. }
   gtag Hg tStatWhile.
@@ -452,7 +453,7 @@ Proof.
   gtag Hg tStatRepeat.
   { gmatch Hg. open_node. osplit Hg E1. osplit Hg E2. osplit Hg E3. tinv E1. stat_start Hp0. hit.
     pose proof (hd_kw _ _ _ _ E3) as Hh.
-    eapply RT_bind; [eapply (c_chunk _ _ _ HR); [gd | exact E2 | eassumption | fhd Hh]|].
+    eapply RT_bind; [eapply (c_chunk _ _ _ _ HR); [gd | exact E2 | eassumption | fhd Hh]|].
     cbv beta. intros b1 p2 Hl_p2 (Q1 & Q2 & Q3 & fs & ->). ssubst. prim; rewrite bind_assert by reflexivity. tinv E3. hit.
     eapply RT_bind; [eapply R_exp; [exact HR | gd | exact Hg | eassumption | fw]|].
     cbv beta. intros x1 p1 Hl_p1 (Q4 & Q5 & Q6 & Q7 & Q8). destruct (isnode_facts _ _ Q7) as (Qh & Qn & _).
@@ -476,8 +477,8 @@ Proof.
   gtag Hg tStatFunction.
   { gmatch Hg; gtag Hg tFunctionName; open_node; osplit Hg E1; osplit Hg E2; osplit Hg E3; try discriminate E3; tinv E1;
       stat_start Hp0; hit; pose proof (g_funcbody_head _ _ _ _ Hg) as Hh.
-    all: match goal with HCn : ValidDomain1.CTX ts (Node tFunctionName ?fa ?fb ?fsh ?ffs) ?mx0 |- _ =>
-           eapply RT_bind; [eapply (L_funcname ts R k HR _ mx0 (Node tFunctionName fa fb fsh ffs));
+    all: match goal with HCn : ValidDomain1.CTX ts _ (Node tFunctionName ?fa ?fb ?fsh ?ffs) ?mx0 |- _ =>
+           eapply RT_bind; [eapply (L_funcname ts nts R k HR _ mx0 (Node tFunctionName fa fb fsh ffs));
              [gd | unfold g_funcname; change (tFunctionName =? tFunctionName) with true; cbv iota; rewrite E2; exact E3
               | exact HCn | fhd Hh]|] end.
     all: cbv beta; intros fn p1 Hl_p1 (Q1 & Q2 & Q3 & Q4 & Q5); ssubst; (prim; rewrite bind_assert by exact Q4).
@@ -507,27 +508,27 @@ Proof.
     destruct Hcases as [[-> Hn]|(q & el & -> & Hn)]; [left | right; eexists _, _]; repeat split; first [reflexivity | assumption]. }
   gtag Hg tStatGoto.
   { gmatch Hg. open_node. osplit Hg E1. osplit Hg E2. tinv E1. stat_start Hp0. hit.
-    match goal with HCh : ValidDomain1.CTX ts (Hid (Tok ?j ?tg)) mx |- _ => apply CTX_hid in HCh end.
+    match goal with HCh : ValidDomain1.CTX ts _ (Hid (Tok ?j ?tg)) mx |- _ => apply CTX_hid in HCh end.
     apply tokc_inv in E2. destruct E2 as (j & tg & tj & [= <- <-] & Hs2 & Hk2).
     match type of Hs2 with sstream _ ?q = _ =>
       destruct (sstream_cons ts q _ _ _ ltac:(lia) Hs2) as (Hle2 & Hlt2 & Hn2 & Hta & _) end. ssubst.
-    match goal with HCt : ValidDomain1.CTX ts (Tok ?jj ?tt) mx |- _ =>
-      pose proof (CTX_tok ts _ _ _ HCt) as Hlim2; pose proof (CTX_tokdata ts _ _ _ _ HCt Hta) as Hdata end.
+    match goal with HCt : ValidDomain1.CTX ts _ (Tok ?jj ?tt) mx |- _ =>
+      pose proof (CTX_tok ts _ _ _ _ HCt) as Hlim2; pose proof (CTX_tokdata ts _ _ _ _ _ HCt Hta) as Hdata end.
     hit. destruct (zlist_eqb b0 (tdata t0)) eqn:Ez; [|discriminate Hg]. injection Hg as <-.
     rewrite mk_eq. apply RT_ok; [lia|]. unfold QS. split; [reflexivity|]. split; [lia|]. split; [|split; reflexivity].
-    rewrite den_node by reflexivity. all2v_tac. rewrite all2v_cons; [exact (all2v_nil ts) | | reflexivity].
+    rewrite den_node by reflexivity. all2v_tac. rewrite all2v_cons; [exact (all2v_nil ts nts) | | reflexivity].
     apply den_pbytes. rewrite Hdata. exact Ez. }
   gtag Hg tStatLabel.
   { gmatch Hg. open_node. osplit Hg E1.
-    match goal with HCh : ValidDomain1.CTX ts (Hid (Tok ?j ?tg)) mx |- _ => apply CTX_hid in HCh end.
+    match goal with HCh : ValidDomain1.CTX ts _ (Hid (Tok ?j ?tg)) mx |- _ => apply CTX_hid in HCh end.
     apply tokc_inv in E1. destruct E1 as (j & tg & tj & [= <- <-] & Hs2 & Hk2).
     destruct (sstream_cons ts _ _ _ _ Hp0 Hs2) as (Hle2 & Hlt2 & Hn2 & Hta & _). subst s.
-    match goal with HCt : ValidDomain1.CTX ts (Tok ?jj ?tt) mx |- _ =>
-      pose proof (CTX_tok ts _ _ _ HCt) as Hlim2; pose proof (CTX_tokdata ts _ _ _ _ HCt Hta) as Hdata end.
+    match goal with HCt : ValidDomain1.CTX ts _ (Tok ?jj ?tt) mx |- _ =>
+      pose proof (CTX_tok ts _ _ _ _ HCt) as Hlim2; pose proof (CTX_tokdata ts _ _ _ _ _ HCt Hta) as Hdata end.
     pose proof (follow_known ts _ mx _ _ _ _ Hs2 Hk2) as Hf0. stat_start Hp0. hit.
     destruct (zlist_eqb b0 (label_name (tdata t))) eqn:Ez; [|discriminate Hg]. injection Hg as <-.
     rewrite mk_eq. apply RT_ok; [lia|]. unfold QS. split; [reflexivity|]. split; [lia|]. split; [|split; reflexivity].
-    rewrite den_node by reflexivity. all2v_tac. rewrite all2v_cons; [exact (all2v_nil ts) | | reflexivity].
+    rewrite den_node by reflexivity. all2v_tac. rewrite all2v_cons; [exact (all2v_nil ts nts) | | reflexivity].
     apply den_pbytes. rewrite label_slice, Hdata. exact Ez. }
   gtag Hg tStatBreak. unfold is_tag in Hnb. discriminate Hnb.
 Qed.
@@ -558,7 +559,7 @@ Lemma all2v_kws_nil a b : kwsl a -> kwsl b -> all2v [] (a ++ [] ++ b) = true.
 Proof.
   intros [A1 A2] [B1 B2]. apply all2v_intro.
   - unfold ParserComplete1.all2v. rewrite !views_app, A1, B1. reflexivity.
-  - rewrite !forallb_app', (dom_kwl ts _ A2), (dom_kwl ts _ B2). reflexivity.
+  - rewrite !forallb_app', (dom_kwl ts _ _ A2), (dom_kwl ts _ _ B2). reflexivity.
 Qed.
 
 Lemma all2v_return x y ks sm1 sm2 : den x y = true -> is_hidden y = false -> forallb is_kwt ks = true ->
@@ -566,12 +567,12 @@ Lemma all2v_return x y ks sm1 sm2 : den x y = true -> is_hidden y = false -> for
 Proof.
   intros Hd Hy Hk [A1 A2] [B1 B2]. apply all2v_intro.
   - unfold ParserComplete1.all2v. rewrite !views_app, A1, views_cons, Hy, views_nil, B1. cbn [app].
-    pose proof (den_old _ _ _ Hd) as Hd'. rewrite all2d_cons, (denotes_not_hidden _ _ Hd'). unfold ParserComplete1.den in Hd'. rewrite Hd'.
+    pose proof (den_old _ _ _ _ Hd) as Hd'. rewrite all2d_cons, (denotes_not_hidden _ _ Hd'). unfold ParserComplete1.den in Hd'. rewrite Hd'.
     cbn [andb]. apply all2d_kw_nil, Hk.
-  - rewrite !forallb_app', (dom_kwl ts _ A2), (dom_kwl ts _ B2). cbn [forallb]. rewrite (den_dom _ _ _ Hd). reflexivity.
+  - rewrite !forallb_app', (dom_kwl ts _ _ A2), (dom_kwl ts _ _ B2). cbn [forallb]. rewrite (den_dom _ _ _ _ Hd). reflexivity.
 Qed.
 
-Lemma L_semis_stats : semis_stats_ok ts G' (semis_def ts R).
+Lemma L_semis_stats : semis_stats_ok ts nts G' (semis_def ts R).
 Proof.
   intros p mx n l s' HG Hg HC Hf. destruct HG as [Hp0 HGk]. unfold semis_def.
   destruct n; [discriminate|]. destruct l as [|x r].
@@ -580,7 +581,7 @@ Proof.
   - destruct (is_kwt x) eqn:Ex.
     + destruct x; try discriminate Ex. cbn [g_stats] in Hg. osplit Hg E. apply CTXL_cons in HC. destruct HC as [HC1 HC].
       tinv E. hit.
-      eapply RT_bind; [eapply (c_semis_stats _ _ _ HR); [gd | exact Hg | exact HC | exact Hf]|].
+      eapply RT_bind; [eapply (c_semis_stats _ _ _ _ HR); [gd | exact Hg | exact HC | exact Hf]|].
       cbv beta. intros tl p' Hl_px (Q1 & Q2 & ks & rest & n' & -> & Q3 & Q4 & Q5). rewrite ret_eq. apply RT_ok; [lia|].
       split; [lia|]. split; [rewrite views_cons; exact Q2|]. exists (Kw i0 :: ks), rest, n'. split; [reflexivity|].
       split; [exact Q3|]. split; assumption.
@@ -629,7 +630,7 @@ Proof.
   intros H. destruct fs as [|bk [|? ?]]; try discriminate H. exists bk. split; [reflexivity | exact H].
 Qed.
 
-Lemma L_stats : stats_ok ts G' (stats_loop_def ts R).
+Lemma L_stats : stats_ok ts nts G' (stats_loop_def ts R).
 Proof.
   intros p mx n l s' HG Hg HC Hpg Hf. pose proof HG as [Hp0 HGk]. unfold stats_loop_def.
   eapply RT_bind; [eapply L_semis_stats; [exact HG | exact Hg | exact HC | fw]|].
@@ -656,14 +657,14 @@ Proof.
       * unfold is_tag in Ebr. apply Z.eqb_eq in Ebr. subst tag. destruct n'; [discriminate|].
         clear Eret. apply g_stat_break_inv in E. destruct E as (bk & -> & E). open_node. tinv E.
         rewrite (bind_ok _ _ _ _ _ (L_stat_none p1 mx ltac:(lia) ltac:(fw))). cbn [is_none strip_paren]. prim. hit.
-        eapply RT_bind; [eapply (c_stats _ _ _ HR); [gd | exact Q4 | exact HCr | apply pguard_mono, Hpr | exact Hf]|].
+        eapply RT_bind; [eapply (c_stats _ _ _ _ HR); [gd | exact Q4 | exact HCr | apply pguard_mono, Hpr | exact Hf]|].
         cbv beta. intros tlr p2 Hl_p2 (Q6 & l1 & l2 & n2 & -> & Q7 & Q8 & Q9). rewrite ret_eq. apply RT_ok; [lia|].
         split; [lia|]. exists (ks ++ Node tStatBreak a b false [Kw i] :: l1), l2, n2.
         split; [rewrite <- app_assoc; reflexivity|]. split; [|split; assumption].
         rewrite all2v_app by exact Hsm. rewrite all2v_cons; [exact Q7 | den_side | reflexivity].
       * eapply RT_bind; [eapply L_stat; [gd | exact E | exact HCx | eapply stats_follow; eassumption | exact Ebr]|].
         cbv beta. intros st p2 Hl_p2 (Q6 & Q7 & Q8 & Q9 & Q10). ssubst. rewrite Q9.
-        eapply RT_bind; [eapply (c_stats _ _ _ HR); [gd | exact Q4 | exact HCr | apply pguard_mono, Hpr | exact Hf]|].
+        eapply RT_bind; [eapply (c_stats _ _ _ _ HR); [gd | exact Q4 | exact HCr | apply pguard_mono, Hpr | exact Hf]|].
         cbv beta. intros tlr p3 Hl_p3 (Q11 & l1 & l2 & n2 & -> & Q12 & Q13 & Q14). rewrite ret_eq. apply RT_ok; [lia|].
         split; [lia|]. exists (ks ++ Node tag a b sh fs :: l1), l2, n2.
         split; [rewrite <- app_assoc; reflexivity|]. split; [|split; assumption].
@@ -695,52 +696,52 @@ Proof.
   exists kr, el. split; [reflexivity|]. destruct el; first [left; split; [reflexivity | exact H] | right; split; [discriminate | exact H]].
 Qed.
 
-Lemma L_chunk : chunk_ok ts G' (chunk_def ts R).
+Lemma L_chunk : chunk_ok ts nts G' (chunk_def ts R).
 Proof.
   intros p mx n g s' HG Hg HC Hf. pose proof HG as [Hp0 HGk]. destruct n; [discriminate|]. cbn [g_chunk] in Hg.
   destruct g as [tag a b sh fs| | | | | | | |]; try discriminate. destruct fs as [|[| |l| | | | | |] [|? ?]]; try discriminate.
-  gtag Hg tChunk. pose proof (CTX_old _ _ _ HC) as (Hfrag & _). cbn [in_frag] in Hfrag. change (tChunk =? tChunk) with true in Hfrag.
+  gtag Hg tChunk. pose proof (CTX_old _ _ _ _ HC) as (Hfrag & _). cbn [in_frag] in Hfrag. change (tChunk =? tChunk) with true in Hfrag.
   cbv iota in Hfrag. apply andb_true_iff in Hfrag. destruct Hfrag as [Hfrag _]. apply andb_true_iff in Hfrag.
   destruct Hfrag as [Hfrag _]. apply andb_true_iff in Hfrag. destruct Hfrag as [_ Hpg].
   open_node. open_lst. unfold chunk_def. prim.
   eapply RT_bind; [eapply L_stats; [exact HG | exact Hg | eassumption | exact Hpg | exact Hf]|].
   cbv beta. intros tl p1 Hl_p1 (Q1 & l1 & l2 & n' & -> & Q2 & Q3 & Q4).
-  match goal with HCl : ValidDomain1.CTXL ts (l1 ++ l2) mx |- _ => apply CTXL_app in HCl; destruct HCl as [HCl1 HCl2] end.
+  match goal with HCl : ValidDomain1.CTXL ts _ (l1 ++ l2) mx |- _ => apply CTXL_app in HCl; destruct HCl as [HCl1 HCl2] end.
   destruct Q4 as [->|(x & r & -> & Ht)].
   - destruct n'; [discriminate|]. cbn [g_stats] in Q3. injection Q3 as <-.
-    eapply RT_bind; [eapply (L_semis ts R k HR p1 mx []); [gd | reflexivity | constructor | fw]|].
+    eapply RT_bind; [eapply (L_semis ts nts R k HR p1 mx []); [gd | reflexivity | constructor | fw]|].
     cbv beta. intros sm1 p2 Hl_p2 (Q5 & Q6 & Q7). unfold laststat_def. prim.
     assert (Hf2 : follow fblock mx (SS p2)) by (rewrite Q5; exact Hf). miss. miss. prim.
-    eapply RT_bind; [eapply (L_semis ts R k HR p2 mx []); [gd | reflexivity | constructor | fw]|].
+    eapply RT_bind; [eapply (L_semis ts nts R k HR p2 mx []); [gd | reflexivity | constructor | fw]|].
     cbv beta. intros sm2 p3 Hl_p3 (Q8 & Q9 & Q10). cbn [is_none strip_paren]. rewrite mk_eq. apply RT_ok; [lia|].
     split; [congruence|]. split; [lia|]. split; [|eexists; reflexivity].
-    rewrite den_node by reflexivity. rewrite all2v_cons; [exact (all2v_nil ts) | | reflexivity]. rewrite den_lst.
+    rewrite den_node by reflexivity. rewrite all2v_cons; [exact (all2v_nil ts nts) | | reflexivity]. rewrite den_lst.
     rewrite all2v_app by exact Q2. apply all2v_kws_nil; assumption.                                              (* VD *)
   - destruct x as [tag xa xb xsh xfs| | | | | | | |]; try discriminate Ht. pose proof Ht as Ht'. unfold is_tag in Ht'.
     apply Z.eqb_eq in Ht'. subst tag. destruct n'; [discriminate|]. apply (return_inv _ _ _ _ _ _ _ _ Ht) in Q3.
     destruct Q3 as (kr & el & -> & Hcases). apply CTXL_cons in HCl2. destruct HCl2 as [HCx HCr]. open_node.
     assert (Hh : hd_in [pkw "return"%bs] (SS p1)) by (destruct Hcases as [[_ Hc]|[_ Hc]]; hd_first Hc).
     assert (Hf0 : follow (anyof [pkw "return"%bs]) mx (SS p1)) by (fhd Hh).
-    eapply RT_bind; [eapply (L_semis ts R k HR p1 mx []); [gd | reflexivity | constructor | fw]|].
+    eapply RT_bind; [eapply (L_semis ts nts R k HR p1 mx []); [gd | reflexivity | constructor | fw]|].
     cbv beta. intros sm1 p2 Hl_p2 (Q5 & Q6 & Q7). unfold laststat_def. prim.
     assert (Hf2 : follow (anyof [pkw "return"%bs]) mx (SS p2)) by (rewrite Q5; exact Hf0). miss.
     destruct Hcases as [[-> Hc]|[Hne Hc]].
     + osplit Hc E1. rewrite <- Q5 in E1. tinv E1. hit. pose proof (g_semis_follow _ _ _ mx Hc Hf) as Hfs.
-      rewrite (bind_ok _ _ _ _ _ (L_explist_none ts R k HR (i + 1) mx ltac:(gd) ltac:(fw))). prim.
+      rewrite (bind_ok _ _ _ _ _ (L_explist_none ts nts R k HR (i + 1) mx ltac:(gd) ltac:(fw))). prim.
       cbn [is_none strip_paren].
-      eapply RT_bind; [eapply (L_semis ts R k HR); [gd | exact Hc | exact HCr | fw]|].
+      eapply RT_bind; [eapply (L_semis ts nts R k HR); [gd | exact Hc | exact HCr | fw]|].
       cbv beta. intros sm2 p3 Hl_p3 (Q8 & Q9 & Q10). rewrite mk_eq. apply RT_ok; [lia|].
       split; [exact Q8|]. split; [lia|]. split; [|eexists; reflexivity].
-      rewrite den_node by reflexivity. rewrite all2v_cons; [exact (all2v_nil ts) | | reflexivity]. rewrite den_lst.
+      rewrite den_node by reflexivity. rewrite all2v_cons; [exact (all2v_nil ts nts) | | reflexivity]. rewrite den_lst.
       rewrite all2v_app by exact Q2.                                                                             (* VD *)
       apply all2v_return; [rewrite den_node by reflexivity; all2v_go | reflexivity | eapply g_semis_kws, Hc | exact Q7 | exact Q10].
     + osplit Hc E1. osplit Hc E2. rewrite <- Q5 in E1. tinv E1. hit. pose proof (g_semis_follow _ _ _ mx Hc Hf) as Hfs.
       eapply RT_bind; [eapply L_explist; [exact HR | gd | exact E2 | eassumption | fw]|].
       cbv beta. intros el1 p3 Hl_p3 (Q8 & Q9 & Q10 & Q11 & Q12). ssubst. prim. cbn [is_none strip_paren].
-      eapply RT_bind; [eapply (L_semis ts R k HR); [gd | exact Hc | exact HCr | fw]|].
+      eapply RT_bind; [eapply (L_semis ts nts R k HR); [gd | exact Hc | exact HCr | fw]|].
       cbv beta. intros sm2 p4 Hl_p4 (Q13 & Q14 & Q15). rewrite mk_eq. apply RT_ok; [lia|].
       split; [exact Q13|]. split; [lia|]. split; [|eexists; reflexivity].
-      rewrite den_node by reflexivity. rewrite all2v_cons; [exact (all2v_nil ts) | | reflexivity]. rewrite den_lst.
+      rewrite den_node by reflexivity. rewrite all2v_cons; [exact (all2v_nil ts nts) | | reflexivity]. rewrite den_lst.
       rewrite all2v_app by exact Q2.                                                                             (* VD *)
       apply all2v_return; [rewrite den_node by reflexivity; all2v_go | reflexivity | eapply g_semis_kws, Hc | exact Q7 | exact Q15].
 Qed.
